@@ -15,6 +15,8 @@
 //!   vecr push:k pop get:i set:i:k len     the same on a Vec<Box> of four run-time objects o0..o3 (o2, o3 equal
 //!                         content, different identity); a read prints which object came back (by ==)
 //!   veqr <a> <b>          Vec<Box>.eq on vectors of these objects (element-wise identity)
+//!   enum <shape 1-5> <variant> <a> <b>   value of enum E<shape> built by a run-time chosen constructor, matched with the
+//!                         arms in declaration order and in reverse order (variant tests of every representation)
 //!   veq <a> <b>           two Vec<int> built by push (elements comma separated, `-` = empty): a.eq(b), b.eq(a), a.eq(a)
 //!   seq <hexA> <na> <hexB> <nb>   a = "A" :: Str.fromInt(na), b likewise (run-time strings): a == b, a != b, a :: b
 //! stdout: per line  `T <hex text> <hex end|-> W <hex text> <hex end|->`   (TypeScript, WebAssembly)
@@ -29,6 +31,10 @@ use std::time::Duration;
 
 const BATCH: usize = 40;
 const MARK: &str = "@@";
+/// enum shapes for the `enum` lines: Int31 + Unboxed; Int31 + two Boxed; only Boxed; Int31 + two
+/// one-pointer-field variants (the first is demoted from Unboxed to Boxed); a single Unboxed variant.
+/// `show` tests the arms in declaration order, `showR` in reverse order.
+const ENUMS: &str = "class E1(A, B, C(Box)) {\n  function show(o: E1): Str = match o { A -> \"A\", B -> \"B\", C(x) -> \"C \" :: Str.fromInt(x.v) }\n  function showR(o: E1): Str = match o { C(x) -> \"C \" :: Str.fromInt(x.v), B -> \"B\", A -> \"A\" }\n}\nclass E2(A, B(int), C(int, int), D) {\n  function show(o: E2): Str = match o { A -> \"A\", B(x) -> \"B \" :: Str.fromInt(x), C(x, y) -> \"C \" :: Str.fromInt(x) :: \" \" :: Str.fromInt(y), D -> \"D\" }\n  function showR(o: E2): Str = match o { D -> \"D\", C(x, y) -> \"C \" :: Str.fromInt(x) :: \" \" :: Str.fromInt(y), B(x) -> \"B \" :: Str.fromInt(x), A -> \"A\" }\n}\nclass E3(P(int), Q(int, int)) {\n  function show(o: E3): Str = match o { P(x) -> \"P \" :: Str.fromInt(x), Q(x, y) -> \"Q \" :: Str.fromInt(x) :: \" \" :: Str.fromInt(y) }\n  function showR(o: E3): Str = match o { Q(x, y) -> \"Q \" :: Str.fromInt(x) :: \" \" :: Str.fromInt(y), P(x) -> \"P \" :: Str.fromInt(x) }\n}\nclass E4(A, B(Box), C(Box)) {\n  function show(o: E4): Str = match o { A -> \"A\", B(x) -> \"B \" :: Str.fromInt(x.v), C(x) -> \"C \" :: Str.fromInt(x.v) }\n  function showR(o: E4): Str = match o { C(x) -> \"C \" :: Str.fromInt(x.v), B(x) -> \"B \" :: Str.fromInt(x.v), A -> \"A\" }\n}\nclass E5(P(Box)) {\n  function show(o: E5): Str = match o { P(x) -> \"P \" :: Str.fromInt(x.v) }\n  function showR(o: E5): Str = match o { P(x) -> \"P \" :: Str.fromInt(x.v) }\n}\n";
 /// four run-time objects; o2 and o3 have the same content
 const OBJS: &str = "    let o0 = Box.init(\"100\".toInt());\n    let o1 = Box.init(\"101\".toInt());\n    let o2 = Box.init(\"102\".toInt());\n    let o3 = Box.init(\"102\".toInt());\n";
 
@@ -139,6 +145,30 @@ fn snippet(line: &str) -> Option<String> {
       for (x, y) in [("a", "b"), ("b", "a"), ("a", "a")] {
         s.push_str(&p(format!("\"v\" :: Str.fromInt(if {x}.eq({y}) {{ 1 }} else {{ 0 }})")));
       }
+      Some(s)
+    }
+    ["enum", shape, idx, a, b] => {
+      let ctor = |sh: &str, k: &str| -> Option<&'static str> {
+        Some(match (sh, k) {
+          ("1", "0") => "E1.A()", ("1", "1") => "E1.B()", ("1", "2") => "E1.C(Box.init(a))",
+          ("2", "0") => "E2.A()", ("2", "1") => "E2.B(a)", ("2", "2") => "E2.C(a, b)", ("2", "3") => "E2.D()",
+          ("3", "0") => "E3.P(a)", ("3", "1") => "E3.Q(a, b)",
+          ("4", "0") => "E4.A()", ("4", "1") => "E4.B(Box.init(a))", ("4", "2") => "E4.C(Box.init(a))",
+          ("5", "0") => "E5.P(Box.init(a))",
+          _ => return None,
+        })
+      };
+      let n: usize = match *shape { "1" => 3, "2" => 4, "3" => 2, "4" => 3, "5" => 1, _ => return None };
+      ctor(shape, idx)?;
+      let mut s = format!("    let k = \"{idx}\".toInt();\n    let a = {};\n    let b = {};\n", int_lit(a)?, int_lit(b)?);
+      // the constructor is chosen at run time so that no test is folded away
+      let mut e = ctor(shape, &(n - 1).to_string())?.to_string();
+      for j in (0..n - 1).rev() {
+        e = format!("if k == {j} {{ {} }} else {{ {e} }}", ctor(shape, &j.to_string())?);
+      }
+      s.push_str(&format!("    let o = {e};\n"));
+      s.push_str(&p(format!("E{shape}.show(o)")));
+      s.push_str(&p(format!("E{shape}.showR(o)")));
       Some(s)
     }
     ["veq", a, b] => {
@@ -278,7 +308,7 @@ fn main() {
   let mut cur: Option<Prog> = None;
   let wrap = |body: &str| {
     format!(
-      "class Box(val v: int) {{}}\nclass OptB(None, Other, Some(Box)) {{\n  function show(o: OptB): Str = match o {{ None -> \"none\", Other -> \"other\", Some(b) -> \"some \" :: Str.fromInt(b.v) }}\n}}\nclass OptV(None, Other, Some(Vec<int>)) {{\n  function show(o: OptV): Str = match o {{ None -> \"none\", Other -> \"other\", Some(v) -> \"some \" :: Str.fromInt(v.length()) }}\n}}\nclass Main {{\n  function idOf(x: Box, o0: Box, o1: Box, o2: Box): Str = if x == o0 {{ \"0\" }} else {{ if x == o1 {{ \"1\" }} else {{ if x == o2 {{ \"2\" }} else {{ \"3\" }} }} }}\n  function main(): unit = {{\n{body}  }}\n}}\n"
+      "class Box(val v: int) {{}}\nclass OptB(None, Other, Some(Box)) {{\n  function show(o: OptB): Str = match o {{ None -> \"none\", Other -> \"other\", Some(b) -> \"some \" :: Str.fromInt(b.v) }}\n}}\nclass OptV(None, Other, Some(Vec<int>)) {{\n  function show(o: OptV): Str = match o {{ None -> \"none\", Other -> \"other\", Some(v) -> \"some \" :: Str.fromInt(v.length()) }}\n}}\n{ENUMS}class Main {{\n  function idOf(x: Box, o0: Box, o1: Box, o2: Box): Str = if x == o0 {{ \"0\" }} else {{ if x == o1 {{ \"1\" }} else {{ if x == o2 {{ \"2\" }} else {{ \"3\" }} }} }}\n  function main(): unit = {{\n{body}  }}\n}}\n"
     )
   };
   for (i, raw) in lines.iter().enumerate() {
@@ -291,7 +321,7 @@ fn main() {
       continue;
     };
     let sn = format!("{sn}    let _ = Process.println(\"{MARK}\");\n");
-    if solo || l.starts_with("vec") || l.starts_with("veq") || l.starts_with("vecr") || l.starts_with("seq") || l.starts_with("tag") {
+    if solo || l.starts_with("vec") || l.starts_with("veq") || l.starts_with("enum") || l.starts_with("vecr") || l.starts_with("seq") || l.starts_with("tag") {
       progs.push(Prog { idx: vec![i], source: sn });
     } else {
       let c = cur.get_or_insert_with(|| Prog { idx: vec![], source: String::new() });
